@@ -247,7 +247,7 @@ class T_HOO(Algorithm):
         """
         nodes = self.partition.get_node_list()
 
-        for i in range(1, self.partition.get_depth() + 1):
+        for i in range(1, self.partition.get_depth() + 2):
             layer = nodes[-i]
             for node in layer:
                 # If no children or if children not visitied, use its own U value
